@@ -2,6 +2,7 @@
    runner and by the generated in-Coq case files. *)
 From Coq Require Import ZArith List Bool.
 From Gabi Require Import Val ModArith Bytes Der Sha256 HashTool GoSem ParamsDef ZkProof Keys RangeProof NonRev Core CL Prover RangeSound Revocation NonRevProver Keyshare MathUtil Codec FilePerm KeyDoc.
+From Gabi Require Cache Concurrency.
 Import ListNotations.
 Open Scope Z_scope.
 
@@ -398,8 +399,55 @@ Definition decimal_text (z : Z) : list Z :=
   if z <? 0 then 45 :: dec_digits (Z.to_nat (bitlen z) + 1) (- z) [] else dec_digits (Z.to_nat (bitlen z) + 1) z [].
 Definition d_decimal (v : val) : val := ret (do z <- as_Z v; Some (of_LZ (decimal_text z))).
 
+(* ---- C07: cache trace ---- *)
+Definition as_cache_op (v : val) : option Cache.op :=
+  match v with
+  | VL [VZ 0] => Some Cache.Prepare
+  | VL [VZ 1] => Some Cache.UpdateWitness
+  | VL [VZ 2; nr; VZ n] => do nr <- as_bool nr; Some (Cache.Prove nr (Z.to_nat n))
+  | VL [VZ 3; VZ n] => Some (Cache.IssuanceCommit (Z.to_nat n))
+  | _ => None
+  end.
+Definition of_idpair (o : option (nat * nat)) : val :=
+  match o with Some (a, b) => VL [VZ (Z.of_nat a); VZ (Z.of_nat b)] | None => VN end.
+Definition d_cache_trace (v : val) : val := ret (
+  match v with
+  | VL l => do ops <- map_opt as_cache_op l;
+            Some (VL (map (fun o => VL [of_idpair (Cache.o_cached o); of_idpair (Cache.o_used o)]) (Cache.trace Cache.init ops)))
+  | _ => None
+  end).
+
+(* ---- C20: interleaved cache hand-off under a given schedule, generator reads ---- *)
+Definition as_kind (v : val) : option Concurrency.kind :=
+  match v with VZ 0 => Some Concurrency.KPrepare | VZ 1 => Some Concurrency.KConsume | _ => None end.
+Definition as_prog (v : val) : option (list Concurrency.kind) :=
+  match v with VL l => map_opt as_kind l | _ => None end.
+Definition of_onat (o : option nat) : val := match o with Some n => VZ (Z.of_nat n) | None => VN end.
+Definition d_sched (v : val) : val := ret (
+  match v with
+  | VL [VL progs; sched] =>
+    do progs <- map_opt as_prog progs; do sched <- as_LZ sched;
+    let g := Concurrency.grun progs (map Z.to_nat sched) in
+    Some (VL [of_LZ (map Z.of_nat (rev (Concurrency.consumed g))); of_onat (Concurrency.chan g);
+              of_LZ (map Z.of_nat (rev (Concurrency.discarded g))); VZ (Z.of_nat (Concurrency.fresh g))])
+  | _ => None
+  end).
+(* keystream blocks are supplied by the caller (AES is not modelled): block i of the list is block counter0 + i *)
+Definition d_cprng_reads (v : val) : val := ret (
+  match v with
+  | VL [c0; sizes; VL ks] =>
+    do c0 <- as_Z c0; do sizes <- as_LZ sizes; do ks <- map_opt as_LZ ks;
+    let ksf := fun iv => nth (Z.to_nat ((iv - c0) mod Concurrency.two64)) ks [] in
+    Some (VL [VL (map (fun iv => VL [VZ (fst iv); VZ (snd iv)]) (Concurrency.reservations c0 sizes));
+              VL (map of_LZ (Concurrency.reads_out ksf c0 sizes))])
+  | _ => None
+  end).
+
 Definition dispatch (fn : Z) (v : val) : val :=
   match fn with
+  | 701 => d_cache_trace v
+  | 2001 => d_sched v
+  | 2002 => d_cprng_reads v
   | 1501 => d_hash_commit v
   | 1502 => d_get_hash_number v
   | 1503 => d_int_hash v
